@@ -269,9 +269,13 @@ fn one_matrix(names: &[String], cells: &[f64], ultrametric: bool, q: &mut Q, rep
         if let Some(expect) = naive_upgma(names, &idx) {
             let mut cs = vec![];
             clusters(t, &mut cs);
-            let norm = |v: &Vec<(BTreeSet<String>, f64)>| -> Vec<(BTreeSet<String>, i64)> { let mut w: Vec<_> = v.iter().map(|(s, h)| (s.clone(), (h * 1e6).round() as i64)).collect(); w.sort(); w };
-            if norm(&cs) != norm(&expect) {
-                rep.oracle("average-linkage", "clusters-or-heights-differ", &req, &format!("{:?} expected {:?}", norm(&cs), norm(&expect)));
+            // clusters are compared exactly, merge heights within a relative tolerance (the two computations round
+            // differently; comparing rounded values would flip at a rounding boundary)
+            let norm = |v: &Vec<(BTreeSet<String>, f64)>| -> Vec<(BTreeSet<String>, f64)> { let mut w: Vec<_> = v.clone(); w.sort_by(|a, b| a.0.cmp(&b.0)); w };
+            let (g, w) = (norm(&cs), norm(&expect));
+            let same = g.len() == w.len() && g.iter().zip(w.iter()).all(|(x, y)| x.0 == y.0 && (x.1 - y.1).abs() <= 1e-9 * x.1.abs().max(y.1.abs()).max(1.0));
+            if !same {
+                rep.oracle("average-linkage", "clusters-or-heights-differ", &req, &format!("{g:?} expected {w:?}"));
             }
             rep.count("naive_clustering_compared");
         } else {
